@@ -355,6 +355,8 @@ def check(ctx):
     # (iv) truncation is never tolerated: the total input length may not steer parsing
     check_no_length_tolerance(ctx, [fi for _, fi, _ in strategies])
 
+    check_no_swallowed_child_failure(ctx, [fi for _, fi, _ in strategies])
+
     from .c12 import check_wrappers
     check_wrappers(ctx, only_unpack=True)
 
@@ -447,6 +449,58 @@ def expand_test_consts(repo, fi, tests):
             if k in t:
                 out.append(t.replace(k, '(%s)' % canon(v)))
     return out
+
+
+def check_no_swallowed_child_failure(ctx, funcs):
+    """(v) an unpack strategy that parses a child (an element, a sub-packet) inside a try whose
+    handler goes on instead of re-raising turns the child's "input too short" failure into a
+    successful parse of fewer elements"""
+    repo = ctx.repo
+    rule = 'R4-child-failure-propagates'
+    raised = {}
+    for fn in repo.functions.values():
+        for n in ast.walk(fn.node):
+            if isinstance(n, ast.Raise) and n.exc is not None:
+                nm = call_name(n.exc) if isinstance(n.exc, ast.Call) else canon(n.exc)
+                if nm:
+                    raised.setdefault(nm.split('.')[-1], fn)
+    seen = set()
+    n_try = 0
+    for fi in funcs:
+        if fi.id in seen:
+            continue
+        seen.add(fi.id)
+        for t in ast.walk(fi.node):
+            if not isinstance(t, ast.Try):
+                continue
+            calls = [c for b in t.body for c in ast.walk(b) if isinstance(c, ast.Call) and (
+                (isinstance(c.func, ast.Attribute) and 'unpack' in c.func.attr) or (isinstance(c.func, ast.Name) and 'unpack' in c.func.id))]
+            if not calls:
+                continue
+            n_try += 1
+            for h in t.handlers:
+                if any(isinstance(x, ast.Raise) for x in ast.walk(h)):
+                    continue
+                types = ['BaseException'] if h.type is None else [canon(x) for x in (h.type.elts if isinstance(h.type, ast.Tuple) else [h.type])]
+                st = '%s: try: ... %s ... except %s: %s' % (fi.qual, canon(calls[0])[:60], ', '.join(types), stmt_text(h.body[0])[:40])
+                hit = None
+                for ty in types:
+                    base = ty.split('.')[-1]
+                    if base in ('Exception', 'BaseException'):
+                        hit = 'it catches %s, the class of every parse failure' % base
+                    elif base in raised:
+                        hit = 'it catches %s, which %s raises' % (base, raised[base].qual)
+                    elif base == 'error' and 'struct' in ty:
+                        hit = 'it catches struct.error, which struct.unpack raises on a short slice'
+                    if hit:
+                        break
+                if hit:
+                    ctx.violation(rule, fi, st, 'the failure of a child parse is swallowed and parsing goes on (%s): an input cut inside the child parses to a shortened value instead of failing' % hit, h.lineno, clause='iv', witness=True)
+                else:
+                    ctx.undecided(rule, fi, st, 'a handler around a child parse goes on without re-raising: cannot see that no parse failure has one of the caught classes', h.lineno, clause='iv')
+    ctx.unit('try_around_child_parse', n_try)
+    if not n_try:
+        ctx.holds(rule, (funcs[0].cls.file if funcs and funcs[0].cls is not None else 'bisturi/field.py', '<unpack strategies>'), 'no unpack strategy parses a child inside a try', 'child failures propagate', 0, clause='iv')
 
 
 def _only_for_eos_marker(repo, fi):
